@@ -116,6 +116,27 @@ def check_continue(J, payload, plines, ind_first, ind_cont_term, unit, cont, lin
         want_tail = cont if li < n - 1 else ""
         if not mid:
             # a physical line without payload: all concrete text
+            if want_tail and li > 0:
+                # (a continuation line that carries nothing: '&' by itself is not a Fortran line, and in C it is a spurious
+                # blank line inside a statement)
+                # degenerate inputs ask for an empty line themselves and are outside the claim: two break hints side by side,
+                # or a part between two hints (or a hint and an end) that is blank.  Every character is a hint, a blank or
+                # neither; "a hint is followed by a hint, an end or only blanks up to the next hint" says it.
+                hint = [z3.Or(c.z == TAB, c.z == FF) for c in payload]
+                blank = [is_space_term(c.z) for c in payload]
+                degenerate = []
+                for k in range(len(payload)):
+                    # the part starting after hint k (up to the next hint or the end) has no non-blank character
+                    run = []
+                    clause = []
+                    for j in range(k + 1, len(payload) + 1):
+                        ends_here = hint[j] if j < len(payload) else True
+                        clause.append(z3.And(*(run + [ends_here])) if run or ends_here is not True else True)
+                        if j < len(payload):
+                            run = run + [z3.And(blank[j], z3.Not(hint[j]))]
+                    degenerate.append(z3.And(hint[k], z3.Or(clause)))
+                if not J.valid(z3.Or(degenerate) if degenerate else False, "continuation line %d holds only the continuation marker" % li):
+                    return
             full = prefix + tail
             if want_tail:
                 if not full.endswith(want_tail):
@@ -544,7 +565,23 @@ def long_library(n, cl, fl):
                          "int fourth_callback_parameter_name_long), int count_argument_name)" % nm},
                 {"decl": "void %s_g(double first_value, double second_value)" % nm,
                  "fortran_generic": [{"decl": "(float first_value, float second_value)"}, {"decl": "(double first_value, double second_value)"}]},
-            ]}
+            ] + [dict(d, options={"wrap_python": False, "wrap_lua": False}) for d in [
+                # one declaration per family of argument / result statements, each with a long argument name
+                {"decl": "void %s_v1(std::vector<int> &vector_argument_name_that_is_long +intent(out))" % nm},
+                {"decl": "void %s_v2(std::vector<int> &vector_argument_name_that_is_long +intent(inout))" % nm},
+                {"decl": "void %s_v3(std::vector<int> &vector_argument_name_that_is_long +intent(out)+deref(allocatable))" % nm},
+                {"decl": "void %s_v4(std::vector<int> &vector_argument_name_that_is_long +intent(inout)+deref(allocatable))" % nm},
+                {"decl": "int %s_v5(const std::vector<double> &vector_argument_name_that_is_long)" % nm},
+                {"decl": "void %s_s1(std::string &string_argument_name_that_is_long +intent(inout))" % nm},
+                {"decl": "void %s_s2(std::string &string_argument_name_that_is_long +intent(out))" % nm},
+                {"decl": "void %s_c1(char *character_argument_name_that_is_long +intent(out)+charlen(40))" % nm},
+                {"decl": "void %s_c2(char **names_argument_name_that_is_long +intent(in))" % nm},
+                {"decl": "bool %s_b1(bool *logical_argument_name_that_is_long +intent(inout))" % nm},
+                {"decl": "int *%s_p1(int *count_argument_name_that_is_long +intent(out)+hidden) +dimension(count_argument_name_that_is_long)" % nm},
+                {"decl": "const std::string %s_r1(int selector_argument_name_that_is_long)" % nm},
+                {"decl": "const std::string &%s_r2(int selector_argument_name_that_is_long) +deref(allocatable)" % nm},
+                {"decl": "void %s_a1(int *array_argument_name_that_is_long +intent(out)+dimension(extent_argument_name_long), int extent_argument_name_long)" % nm},
+            ]]}
 
 
 def file_kind(f):
